@@ -13,15 +13,7 @@ component changes the option on its own).
 -/
 namespace RimeModel.Session
 
-def isPrintable (b : UInt8) : Bool := decide (b ≥ 0x20) && decide (b ≤ 0x7e)
-
-/-- ShapeFormatter::Format with `full_shape` on (`char` is signed: bytes ≥ 0x80 are `< 0x20`) -/
-def shapeFormat (t : Bytes) : Bytes :=
-  if t.all (fun b => !isPrintable b) then t
-  else t.flatMap (fun b =>
-    if b = 0x20 then [0xe3, 0x80, 0x80]
-    else if isPrintable b then [0xef, 0xbc + (b - 0x20) / 0x40, 0x80 + (b - 0x20) % 0x40]
-    else [b])
+-- `isPrintable`, `shapeFormat` live in Session/Processors.lean (the key binder's nested ProcessKey needs them)
 
 /-- the value of `full_shape` the components of this call see -/
 def shapeAfter (c : Ctx) (op : Op) : Bool :=
@@ -29,13 +21,7 @@ def shapeAfter (c : Ctx) (op : Op) : Bool :=
   | .setOption name v => if name = "full_shape" then v else c.getOption "full_shape"
   | _ => c.getOption "full_shape"
 
-/-- ShapeProcessor::ProcessKeyEvent, run by ConcreteEngine::ProcessKey after the processors when none of them
-accepted the key (also after a `kRejected`) -/
-def shapePost (k : Key) (c : Ctx) : Ctx × Bool :=
-  if !c.getOption "full_shape" then (c, false)
-  else if k.ctrl || k.alt || k.super || k.release then (c, false)
-  else if k.code < 0x20 || k.code > 0x7e then (c, false)
-  else ({ c with commitBuf := c.commitBuf ++ shapeFormat [k.byte] }, true)
+-- `shapePost` (ShapeProcessor::ProcessKeyEvent) lives in Session/Processors.lean
 
 /-- one API call on a schema given as its two environments -/
 def apiStepS (envOf : Bool → Env) (c : Ctx) (op : Op) : Ctx × Ret :=
@@ -48,13 +34,7 @@ def apiStepS (envOf : Bool → Env) (c : Ctx) (op : Op) : Ctx × Ret :=
 
 def runOpsS (envOf : Bool → Env) (c : Ctx) (ops : List Op) : Ctx := ops.foldl (fun c op => (apiStepS envOf c op).1) c
 
-theorem shapePost_inv (k : Key) {c : Ctx} (h : Inv c) : Inv (shapePost k c).1 := by
-  unfold shapePost
-  (repeat' split) <;> first | exact h | exact commitBuf_inv h _
-
-theorem shapePost_geo (k : Key) {c : Ctx} (h : GeoInv c) : GeoInv (shapePost k c).1 := by
-  unfold shapePost
-  (repeat' split) <;> first | exact h | exact commitBuf_geo h _
+-- `shapePost_inv` / `shapePost_geo` live in Session/InvProc.lean / GeoProc.lean
 
 theorem apiStepS_inv {envOf : Bool → Env} (hrc : ∀ b, ComposeSpec (envOf b).recompose) (op : Op) {c : Ctx} (h : Inv c) :
     Inv (apiStepS envOf c op).1 := by
@@ -91,5 +71,142 @@ theorem runOpsS_geo {envOf : Bool → Env} (hrc : ∀ b, ComposeGeoSpec (envOf b
   induction ops generalizing c with
   | nil => exact h
   | cons op ops ih => exact ih (apiStepS_geo hrc hnp op h)
+
+/-! ### the key binder and `full_shape`
+
+A binding of the key binder may change `full_shape` itself (`toggle: full_shape` on Shift+space in the stock
+configuration).  The option is stored before the engine recomposes (Context::set_option → OnOptionUpdate →
+RefreshNonConfirmedComposition), so the call has to run in the environment of the NEW value, exactly as for the API's
+`set_option`.  Which binding fires is decided by the key binder on the state it is handed; when it is the first
+processor of the list that is the state at the start of the call, and the decision does not depend on the environment's
+shape (the binding list, the switches and the conditions are the same in both).  `shapeAfterK` runs that decision (with a
+do-nothing stand-in for the nested ProcessKey: no modelled processor other than the key binder writes an option) and
+reads the option off the result.  For every other call it is `shapeAfter`.  When the key binder is not the first
+processor the prediction is not attempted (the driver refuses such a schema if a binding can change `full_shape`). -/
+
+def shapeAfterK (envOf : Bool → Env) (c : Ctx) (op : Op) : Bool :=
+  match op with
+  | .key code mask =>
+    let env := envOf (c.getOption "full_shape")
+    match env.processors with
+    | .keyBinder :: _ => (kbProcess (fun _ c => (c, false)) env ⟨code, mask⟩ c).1.getOption "full_shape"
+    | _ => c.getOption "full_shape"
+  | _ => shapeAfter c op
+
+/-- the call itself, as in `apiStepS` but in the environment `shapeAfterK` chooses -/
+def apiStepK0 (envOf : Bool → Env) (c : Ctx) (op : Op) : Ctx × Ret :=
+  let r := apiStep (envOf (shapeAfterK envOf c op)) c op
+  match op with
+  | .key code mask =>
+    if r.2.ok then r
+    else let p := shapePost ⟨code, mask⟩ r.1; (p.1, ⟨p.2, []⟩)
+  | _ => r
+
+/-- one API call on a schema with a key binder and / or an ascii composer, given as its two environments; the ascii
+composer's context-update listener (temporary inline mode ends when the composition does) is applied at the end of the
+call (`acSettle`, Session/Processors.lean) -/
+def apiStepK (envOf : Bool → Env) (c : Ctx) (op : Op) : Ctx × Ret :=
+  let r := apiStepK0 envOf c op
+  (acSettle r.1, r.2)
+
+def runOpsK (envOf : Bool → Env) (c : Ctx) (ops : List Op) : Ctx := ops.foldl (fun c op => (apiStepK envOf c op).1) c
+
+/-- without a key binder at the head of the processor list the two layers coincide (up to the ascii composer's listener,
+which does nothing unless the ascii composer has switched its inline mode on) -/
+theorem apiStepK0_eq_apiStepS (envOf : Bool → Env) (h : ∀ b ps, (envOf b).processors ≠ .keyBinder :: ps) (c : Ctx) (op : Op) :
+    apiStepK0 envOf c op = apiStepS envOf c op := by
+  have hs : shapeAfterK envOf c op = shapeAfter c op := by
+    unfold shapeAfterK
+    cases op <;> try rfl
+    case key code mask =>
+      dsimp only
+      split
+      · rename_i ps hps
+        exact absurd hps (h _ ps)
+      · rfl
+  unfold apiStepK0 apiStepS
+  rw [hs]
+
+theorem apiStepK_inv {envOf : Bool → Env} (hrc : ∀ b, ComposeSpec (envOf b).recompose) (op : Op) {c : Ctx} (h : Inv c) :
+    Inv (apiStepK envOf c op).1 := by
+  have h1 := apiStep_inv (hrc (shapeAfterK envOf c op)) op h
+  unfold apiStepK
+  refine acSettle_inv ?_
+  unfold apiStepK0
+  cases op <;> dsimp only
+  case key code mask =>
+    split
+    · exact h1
+    · exact shapePost_inv _ h1
+  all_goals exact h1
+
+theorem runOpsK_inv {envOf : Bool → Env} (hrc : ∀ b, ComposeSpec (envOf b).recompose) (ops : List Op) {c : Ctx} (h : Inv c) :
+    Inv (runOpsK envOf c ops) := by
+  unfold runOpsK
+  induction ops generalizing c with
+  | nil => exact h
+  | cons op ops ih => exact ih (apiStepK_inv hrc op h)
+
+theorem apiStepK_geo {envOf : Bool → Env} (hrc : ∀ b, ComposeGeoSpec (envOf b).recompose) (hnp : ∀ b, NoPrevMatch (envOf b))
+    (op : Op) {c : Ctx} (h : GeoInv c) : GeoInv (apiStepK envOf c op).1 := by
+  have h1 := apiStep_geo (hrc (shapeAfterK envOf c op)) (hnp _) op h
+  unfold apiStepK
+  refine acSettle_geo ?_
+  unfold apiStepK0
+  cases op <;> dsimp only
+  case key code mask =>
+    split
+    · exact h1
+    · exact shapePost_geo _ h1
+  all_goals exact h1
+
+theorem runOpsK_geo {envOf : Bool → Env} (hrc : ∀ b, ComposeGeoSpec (envOf b).recompose) (hnp : ∀ b, NoPrevMatch (envOf b))
+    (ops : List Op) {c : Ctx} (h : GeoInv c) : GeoInv (runOpsK envOf c ops) := by
+  unfold runOpsK
+  induction ops generalizing c with
+  | nil => exact h
+  | cons op ops ih => exact ih (apiStepK_geo hrc hnp op h)
+
+/-! ### time
+
+The ascii composer reads `std::chrono::steady_clock` (a Shift / Control tap switches ascii_mode only when the release comes
+within 500 ms of the press).  The clock is `Ctx.clock`; nothing in the model moves it.  A timed history gives, for each
+call, the time that passes before it. -/
+
+/-- the environment lets `ms` milliseconds pass -/
+def tick (c : Ctx) (ms : Nat) : Ctx := { c with clock := c.clock + ms }
+
+def runOpsT (envOf : Bool → Env) (c : Ctx) (ops : List (Nat × Op)) : Ctx :=
+  ops.foldl (fun c e => (apiStepK envOf (tick c e.1) e.2).1) c
+
+theorem tick_inv {c : Ctx} (h : Inv c) (ms : Nat) : Inv (tick c ms) := h.frame rfl rfl rfl
+
+theorem tick_geo {c : Ctx} (h : GeoInv c) (ms : Nat) : GeoInv (tick c ms) := h.of_comp rfl
+
+theorem runOpsT_inv {envOf : Bool → Env} (hrc : ∀ b, ComposeSpec (envOf b).recompose) (ops : List (Nat × Op)) {c : Ctx} (h : Inv c) :
+    Inv (runOpsT envOf c ops) := by
+  unfold runOpsT
+  induction ops generalizing c with
+  | nil => exact h
+  | cons e ops ih => exact ih (apiStepK_inv hrc e.2 (tick_inv h e.1))
+
+theorem runOpsT_geo {envOf : Bool → Env} (hrc : ∀ b, ComposeGeoSpec (envOf b).recompose) (hnp : ∀ b, NoPrevMatch (envOf b))
+    (ops : List (Nat × Op)) {c : Ctx} (h : GeoInv c) : GeoInv (runOpsT envOf c ops) := by
+  unfold runOpsT
+  induction ops generalizing c with
+  | nil => exact h
+  | cons e ops ih => exact ih (apiStepK_geo hrc hnp e.2 (tick_geo h e.1))
+
+/-- a history without delays is an untimed history -/
+theorem runOpsT_zero (envOf : Bool → Env) (c : Ctx) (ops : List Op) :
+    runOpsT envOf c (ops.map (fun op => (0, op))) = runOpsK envOf c ops := by
+  unfold runOpsT runOpsK
+  induction ops generalizing c with
+  | nil => rfl
+  | cons op ops ih =>
+    simp only [List.map_cons, List.foldl_cons]
+    have : tick c 0 = c := by unfold tick; simp
+    rw [this]
+    exact ih _
 
 end RimeModel.Session
